@@ -669,12 +669,42 @@ class PX:
             v = env[name]
             if isinstance(v, Unknown):
                 return self.module_value(fr.mod, name)
-            return v
+            return self.lift(v)
         import builtins
 
         if hasattr(builtins, name):
             return TypeRef("builtins." + name)
         raise Exc("NameError", (name,), origin=name)
+
+    def lift(self, v, depth=0):
+        """TE values -> PX values: symbolic constructor records of repo dataclasses / zigpy ints become objects."""
+        if isinstance(v, Record):
+            cache = self.repo.__dict__.setdefault("_px_lift", {})
+            if id(v) in cache:
+                return cache[id(v)][1]
+            out = v
+            c = v.ctor
+            if isinstance(c, (ClassRef, TypeRef)) and int_type_of(c) and len(v.args) == 1 and isinstance(v.args[0], (int, Member)) and not v.kwargs:
+                out = ZInt(int(v.args[0]), *int_type_of(c))
+            elif isinstance(c, ClassRef) and (_is_dataclass(c) or c.is_struct):
+                names = [f[0] for f in c.struct_fields()]
+                fields = {}
+                for fn, fty, dflt in c.struct_fields():
+                    if dflt is not None and not isinstance(dflt, (Record, Unknown)):
+                        fields[fn] = dflt
+                for n, a in zip(names, v.args):
+                    fields[n] = self.lift(a, depth + 1)
+                for k, a in v.kwargs.items():
+                    fields[k] = self.lift(a, depth + 1)
+                out = Obj(c, fields, tag=f"{c.name}({', '.join(_short(x) for x in list(fields.values())[:2])})")
+            cache[id(v)] = (v, out)
+            return out
+        if depth < 4:
+            if isinstance(v, list) and any(isinstance(x, (Record, list, dict)) for x in v):
+                return [self.lift(x, depth + 1) for x in v]
+            if isinstance(v, dict) and any(isinstance(x, (Record, list, dict)) for x in v.values()):
+                return {k: self.lift(x, depth + 1) for k, x in v.items()}
+        return v
 
     def module_value(self, mod, name):
         """Module-level ``NAME = <call of a repo function on constants>`` that TE could not fold: evaluate the
@@ -1241,6 +1271,9 @@ class PX:
             return self.builtin(fval.short, text, args, kw, fr, node)
         if isinstance(fval, TypeRef) and fval.name in ("functools.partial",):
             return Partial(args[0], args[1:], kw)
+        if isinstance(fval, TypeRef) and fval.name == "dataclasses.replace" and args and isinstance(args[0], Obj):
+            o = Obj(args[0].cls, {**args[0].fields, **kw}, tag=args[0].tag)
+            return o
         if isinstance(fval, TypeRef) and fval.name == "itertools.cycle" and args and not isinstance(args[0], Sym):
             return _Cycle(self._concrete_iter(args[0], fr, node))
         if isinstance(fval, TypeRef) and fval.name == "itertools.chain" and not any(isinstance(a, Sym) for a in args):
@@ -1322,6 +1355,10 @@ class PX:
                 fnames = [x.arg for x in init.node.args.args][1:]
             except KeyError:
                 fnames = []
+        if cls.is_struct or _is_dataclass(cls):
+            for fn, fty, dflt in cls.struct_fields():
+                if dflt is not None and not isinstance(dflt, (Record, Unknown)):
+                    fields[fn] = dflt
         for n, v in zip(fnames, args):
             fields[n] = v
         if len(args) > len(fnames):
@@ -1422,6 +1459,8 @@ class PX:
                 return a.cls
             if isinstance(a, Obj):
                 return a.cls
+            if isinstance(a, ZInt):
+                return TypeRef(f"zigpy.types.{'' if a.signed else 'u'}int{a.bits}{'s' if a.signed else '_t'}")
             return Sym(f"type({_short(a)})")
         if n == "next":
             a = args[0]
